@@ -50,8 +50,31 @@ type fileSpec struct {
 	nBlocks uint64
 }
 
-func randName(rng *common.Rng) string {
+func randName(rng *common.Rng, pool []string) string {
 	part := func() string {
+		// most names of one directory share sanctuaries and realms, as real data does
+		if len(pool) > 0 && rng.Chance(70) {
+			return pool[rng.Intn(len(pool))]
+		}
+		return freshPart(rng)
+	}
+	switch r := rng.Intn(100); {
+	case r < 3:
+		return ""
+	case r < 6:
+		return part()
+	case r < 10:
+		return part() + "/" + part()
+	case r < 16:
+		return part() + "/" + part() + "/" + freshPart(rng) + "/" + freshPart(rng) // the swamp part may contain '/'
+	case r < 19:
+		return part() + "//" + freshPart(rng)
+	}
+	return part() + "/" + part() + "/" + freshPart(rng)
+}
+
+func freshPart(rng *common.Rng) string {
+	{
 		n := 1 + rng.Intn(12)
 		if rng.Chance(8) {
 			n = 60 + rng.Intn(60)
@@ -71,19 +94,6 @@ func randName(rng *common.Rng) string {
 		}
 		return sb.String()
 	}
-	switch r := rng.Intn(100); {
-	case r < 3:
-		return ""
-	case r < 6:
-		return part()
-	case r < 10:
-		return part() + "/" + part()
-	case r < 16:
-		return part() + "/" + part() + "/" + part() + "/" + part() // the swamp part may contain '/'
-	case r < 19:
-		return part() + "//" + part()
-	}
-	return part() + "/" + part() + "/" + part()
 }
 
 func someEntries(rng *common.Rng, n int) []v2.Entry {
@@ -317,9 +327,10 @@ func main() {
 		jobs[i] = d
 		root := filepath.Join(tmp, fmt.Sprintf("d%d", i))
 		nf := 1 + r.Intn(8)
+		pool := []string{freshPart(r), freshPart(r), freshPart(r)}
 		used := map[string]bool{}
 		for k := 0; k < nf; k++ {
-			nm := randName(r)
+			nm := randName(r, pool)
 			if i%40 == 7 && k == 0 {
 				nm = "s/r/" + strings.Repeat("n", 65535-4)
 			}
